@@ -1,6 +1,6 @@
 (* C05 — non-vacuity: concrete runs in which the hypotheses of the theorems hold. *)
 From Coq Require Import List NArith Bool.
-From LTV.C05 Require Import ParamsGen Model Proofs ProofsB.
+From LTV.C05 Require Import Model Proofs ProofsB.
 Import ListNotations.
 Local Open Scope N_scope.
 
@@ -8,32 +8,33 @@ Definition Lx : layout := mkLayout 95 10 (fun i => negb (i =? 3)).   (* 10 piece
 Definition cx (i off : N) : N := (i * 10 + off) mod 256.
 Definition kz (_ : N) : N := 0.                      (* plain connections ignore the keystream *)
 Definition kx (j : N) : N := (j * 7 + 3) mod 256.    (* some keystream *)
+Definition pol : policy := mkPolicy 2048 131072 false false.   (* what the probe finds on the unchanged tree *)
 Definition a := mkPiece 0 2 5.
 Definition b := mkPiece 9 0 5.
 
 (* piece_answers_request / never_* / piece_bytes_exact_idle: a PIECE is sent, the writer is idle *)
-Example ex_piece : let s := run Lx cx false kz [Decide false; RecvRequest a; WriteReady 7; WriteReady 1000] in
+Example ex_piece : let s := run Lx cx false kz pol [Decide false; RecvRequest a; WriteReady 7; WriteReady 1000] in
   In (MPiece a) (msgs s) /\ ws s = Idle /\
   stream s = [0;0;0;1;1; 0;0;0;14;7; 0;0;0;0; 0;0;0;2; 2;3;4;5;6].
 Proof. vm_compute. repeat split. left. reflexivity. Qed.
 
 (* the last (short) piece: offset+length = piece size exactly *)
-Example ex_last_piece : In (MPiece b) (msgs (run Lx cx false kz [Decide false; RecvRequest b; WriteReady 1000])).
+Example ex_last_piece : In (MPiece b) (msgs (run Lx cx false kz pol [Decide false; RecvRequest b; WriteReady 1000])).
 Proof. vm_compute. left. reflexivity. Qed.
 
 (* choke_clears: a CHOKE is written while a request is still pending; it is discarded *)
 Example ex_choke :
-  let s := run Lx cx false kz [Decide false; RecvRequest a; WriteReady 0; RecvRequest b; Decide true] in
-  let s' := step Lx cx false kz s (WriteReady 1000) in
+  let s := run Lx cx false kz pol [Decide false; RecvRequest a; WriteReady 0; RecvRequest b; Decide true] in
+  let s' := step Lx cx false kz pol s (WriteReady 1000) in
   queue s = [b] /\ msgs s' = [MChoke true] ++ msgs s /\ queue s' = [].
 Proof. vm_compute. repeat split. Qed.
 
 (* bad_request_closes: unverified piece 3 at the head of the queue *)
 Example ex_bad :
-  let s := run Lx cx false kz [Decide false; WriteReady 100; RecvRequest (mkPiece 3 0 1)] in
+  let s := run Lx cx false kz pol [Decide false; WriteReady 100; RecvRequest (mkPiece 3 0 1)] in
   ws s = Idle /\ closed s = false /\ choked s = false /\ queue s = [mkPiece 3 0 1] /\
   is_valid_piece Lx (mkPiece 3 0 1) && l_completed Lx 3 = false /\
-  closed (step Lx cx false kz s (WriteReady 5)) = true.
+  closed (step Lx cx false kz pol s (WriteReady 5)) = true.
 Proof. vm_compute. repeat split. Qed.
 
 (* uint32 wrap: offset 2^32-1, length 2 sums to 1 in 32 bits; is_valid_piece rejects it *)
@@ -42,16 +43,16 @@ Example ex_wrap : is_valid_piece Lx (mkPiece 0 4294967295 2) = false /\ is_valid
 Proof. vm_compute. repeat split. Qed.
 
 (* request_ignored / cancel_effective / closed_forever hypotheses *)
-Example ex_ignored : choked (run Lx cx false kz [RecvRequest a]) = true /\ queue (run Lx cx false kz [RecvRequest a]) = [].
+Example ex_ignored : choked (run Lx cx false kz pol [RecvRequest a]) = true /\ queue (run Lx cx false kz pol [RecvRequest a]) = [].
 Proof. vm_compute. split; reflexivity. Qed.
-Example ex_cancel : closed (run Lx cx false kz [Decide false; RecvRequest a]) = false /\
-                    queue (run Lx cx false kz [Decide false; RecvRequest a]) = [a].
+Example ex_cancel : closed (run Lx cx false kz pol [Decide false; RecvRequest a]) = false /\
+                    queue (run Lx cx false kz pol [Decide false; RecvRequest a]) = [a].
 Proof. vm_compute. split; reflexivity. Qed.
-Example ex_closed : closed (run Lx cx false kz [Decide false; RecvRequest (mkPiece 0 0 0); WriteReady 1]) = true.
+Example ex_closed : closed (run Lx cx false kz pol [Decide false; RecvRequest (mkPiece 0 0 0); WriteReady 1]) = true.
 Proof. vm_compute. reflexivity. Qed.
 
 (* RC4 stream: the same exchange as ex_piece; every wire byte is the plain byte XOR ks at its position *)
-Example ex_rc4 : let s := run Lx cx true kx [Decide false; RecvRequest a; WriteReady 7; WriteReady 1000] in
+Example ex_rc4 : let s := run Lx cx true kx pol [Decide false; RecvRequest a; WriteReady 7; WriteReady 1000] in
   ws s = Idle /\ msgs s = [MPiece a; MChoke false] /\
   stream s = xor_from kx 0 [0;0;0;1;1; 0;0;0;14;7; 0;0;0;0; 0;0;0;2; 2;3;4;5;6] /\ kpos s = 23.
 Proof. vm_compute. repeat split. Qed.
@@ -62,18 +63,44 @@ Definition Lbig : layout := mkLayout 40000 20000 (fun _ => true).
 Definition big := mkPiece 1 100 17000.
 Example ex_rc4_refill :
   let ops := [Decide false; RecvRequest big; WriteReady 9; WriteReady 9; WriteReady 16000] in
-  let s := run Lbig cx true kx ops in
+  let s := run Lbig cx true kx pol ops in
   ws s = WPiece /\ len (ebuf s) = 384 /\ eb_end s = 16384 /\ cur s = mkPiece 1 16100 1000 /\
-  let s2 := step Lbig cx true kx s (WriteReady 400) in
+  let s2 := step Lbig cx true kx pol s (WriteReady 400) in
   len (ebuf s2) = 600 /\ eb_end s2 = 616 /\ cur s2 = mkPiece 1 16500 600 /\
-  let s3 := step Lbig cx true kx s2 (WriteReady 1000) in
+  let s3 := step Lbig cx true kx pol s2 (WriteReady 1000) in
   ws s3 = Idle /\ len (stream s3) = 17018 /\ kpos s3 = 17018.
 Proof. vm_compute. repeat split. Qed.
 
 (* chunk_*: a chunk is mapped while/after piece 0 is served; the written CHOKE releases it *)
 Example ex_chunk :
-  let s := run Lx cx false kz [Decide false; RecvRequest a; WriteReady 20] in
+  let s := run Lx cx false kz pol [Decide false; RecvRequest a; WriteReady 20] in
   ws s = WPiece /\ upc s = Some 0 /\
-  let s2 := step Lx cx false kz (step Lx cx false kz s (Decide true)) (WriteReady 1000) in
+  let s2 := step Lx cx false kz pol (step Lx cx false kz pol s (Decide true)) (WriteReady 1000) in
   choked s2 = true /\ send_choked s2 = false /\ upc s2 = None /\ queue s2 = [].
+Proof. vm_compute. repeat split. Qed.
+
+(* keep-alive tick: taken by an idle writer, not while a header is being flushed *)
+Example ex_keepalive :
+  let s := run Lx cx false kz pol [Decide false; RecvRequest a; WriteReady 9; KeepaliveTick] in
+  ws s = Msg /\ msgs s = [MPiece a; MChoke false] /\
+  let s2 := run Lx cx false kz pol [Decide false; RecvRequest a; WriteReady 1000; KeepaliveTick; KeepaliveTick; WriteReady 6; WriteReady 10] in
+  ws s2 = Idle /\ obuf s2 = [] /\ msgs s2 = [MKeep; MKeep; MPiece a; MChoke false] /\ len (stream s2) = 31.
+Proof. vm_compute. repeat split. Qed.
+
+(* throttle + RC4: the staging buffer is filled with less than the block (quota 3000 of 12000), the socket
+   takes 1000, more quota arrives (5000) and is appended behind the 2000 staged bytes *)
+Definition big2 := mkPiece 1 100 12000.
+Example ex_throttle :
+  let ops := [Decide false; RecvRequest big2; Throttle (mkThr true 1024 0 0 20000); WriteReady 100000;
+              Throttle (mkThr true 1024 3000 0 0); WriteReady 1000; Throttle (mkThr true 1024 2000 5000 0)] in
+  let s := run Lbig cx true kx pol ops in
+  ws s = WPiece /\ len (ebuf s) = 2000 /\ eb_end s = 3000 /\ cur s = mkPiece 1 1100 11000 /\
+  let s2 := step Lbig cx true kx pol s (WriteReady 100000) in
+  len (ebuf s2) = 0 /\ eb_end s2 = 8000 /\ cur s2 = mkPiece 1 8100 4000 /\ node_quota (tq s2) = 0.
+Proof. vm_compute. repeat split. Qed.
+
+(* a policy that drops unservable requests on receipt: nothing is queued, the connection stays open *)
+Example ex_eager :
+  let s := run Lx cx false kz (mkPolicy 500 131072 true true) [Decide false; WriteReady 100; RecvRequest (mkPiece 3 0 1); RecvRequest (mkPiece 0 9 2); WriteReady 100] in
+  closed s = false /\ queue s = [] /\ msgs s = [MChoke false].
 Proof. vm_compute. repeat split. Qed.
